@@ -4,8 +4,8 @@
 import json, os
 NMAX = int(os.environ.get('MPX_NMAX', 8))     # fragment bytes  0..NMAX   (quick tier)
 MMAX = int(os.environ.get('MPX_MMAX', 4))     # carried bytes   0..MMAX   (quick tier)
-NTH = int(os.environ.get('MPX_NTH', 12))      # thorough tier: additionally up to NTH x MTH
-MTH = int(os.environ.get('MPX_MTH', 6))
+NTH = int(os.environ.get('MPX_NTH', 10))      # thorough tier: additionally up to NTH x MTH
+MTH = int(os.environ.get('MPX_MTH', 5))
 GEN = [(6, 0), (3, 3)]                         # variants that enter with NO patterns (real gen_regex executed)
 
 def uws(T):
@@ -35,7 +35,7 @@ for L in range(0, max(NMAX, NTH) + 1):
         T = L + M
         variants.append({"suffix": "l%d_c%d" % (L, M), "defines": ["MPX_L=%d" % L, "MPX_M=%d" % M],
                          "unwindset": uws(T), "bound": bound(L, M, False),
-                         "tier": "quick" if quick else "thorough"})
+                         "tier": "quick" if quick else "thorough", "timeout": 600 if quick else 1500})
 for L, M in GEN:
     variants.append({"suffix": "gen_l%d_c%d" % (L, M), "defines": ["MPX_L=%d" % L, "MPX_M=%d" % M, "MPX_GEN"],
                      "unwindset": uws(L + M), "bound": bound(L, M, True), "tier": "quick"})
